@@ -187,7 +187,8 @@ package syncer
 
 //@ func RedisOutput.sendCmdsBatch$sendFuncOnce
 //@   arith int
-//@   properties C07 C09 C02 C01
+//@   properties C07 C09 C02 C01 C17
+//@   replay syncer_offsetWithoutRunId syncer_gcRunningReplay syncer_txnRecordWithoutRunId
 //@   ghost var bLen mathint
 //@   ghost var bFirst string
 //@   ghost var bLast string
@@ -251,7 +252,7 @@ package syncer
 //@ func RedisOutput.sendCmdsBatch
 //@   arith int
 //@   properties C07 C09 C02 C01
-//@   replay syncer_sendCmdsBatch
+//@   replay syncer_sendCmdsBatch syncer_offsetWithoutRunId syncer_gcRunningReplay syncer_txnRecordWithoutRunId
 //@   ghost var bLen mathint
 //@   ghost var bFirst string
 //@   ghost var bLast string
